@@ -383,7 +383,8 @@ def r5(ctx) -> None:
 
 
 def check(ctx) -> None:
-    r1(ctx)
-    r2_r3(ctx)
-    r4(ctx)
-    r5(ctx)
+    for g in check.groups:
+        g(ctx)
+
+
+check.groups = [r1, r2_r3, r4, r5]
